@@ -201,4 +201,31 @@ theorem lineOf_noNl (p : List Char × Bool) (h : '\n' ∉ p.1) : '\n' ∉ lineOf
   · exact stripCrEnd_noNl _ h
   · exact h
 
+theorem trimEnd_lineOf_prefix (p : List Char × Bool) : trimEnd p.1 <+: lineOf p := by
+  unfold lineOf stripCrEnd
+  split
+  · split
+    · rename_i h
+      have hl := eq_dropLast_concat p.1 '\r' h
+      generalize p.1.dropLast = x at hl
+      rw [hl, trimEnd_append_white _ _ isWhite_cr]
+      exact trimEnd_prefix x
+    · exact trimEnd_prefix _
+  · exact trimEnd_prefix _
+
+theorem trimEnd_trimStart_lineOf_prefix (p : List Char × Bool) :
+    trimEnd (trimStart p.1) <+: trimStart (lineOf p) := by
+  unfold lineOf stripCrEnd
+  split
+  · split
+    · rename_i h
+      have hl := eq_dropLast_concat p.1 '\r' h
+      generalize p.1.dropLast = x at hl
+      rw [hl, trimStart_append_white _ _ isWhite_cr]
+      split
+      · simp [trimEnd]
+      · rw [trimEnd_append_white _ _ isWhite_cr]; exact trimEnd_prefix _
+    · exact trimEnd_prefix _
+  · exact trimEnd_prefix _
+
 end Witverif.Text.RustStr
